@@ -7,6 +7,7 @@ package main
 import (
 	"encoding/binary"
 	"encoding/json"
+	"errors"
 	"flag"
 	"fmt"
 	"math/rand"
@@ -53,8 +54,10 @@ type Ev struct {
 	Cookies int `json:"cookies,omitempty"` // observed: cookie replies the device sent during the flood
 	// dg with Junk > 0: the TUN write of this step is held open (sim.Tun.WriteGate) while a batch of Junk
 	// unauthenticated datagrams (type 0xEE, same sizes, a forged IPv4 packet at the content offset) arrives
-	Junk     int `json:"junk,omitempty"`
-	JunkSent int `json:"junk_sent,omitempty"`
+	Junk int `json:"junk,omitempty"`
+	// dg with TunFail: tun.Write returns an error for the duration of the step (sim.Tun.WriteErr): the packets of the step are lost
+	TunFail  bool `json:"tun_fail,omitempty"`
+	JunkSent int  `json:"junk_sent,omitempty"`
 	// MaxLateMs: the step is only valid if it starts at most this many ms after the preceding "age" event
 	MaxLateMs int  `json:"max_late_ms,omitempty"`
 	Dgs       []Dg `json:"dgs,omitempty"`
@@ -342,7 +345,11 @@ func run(sc *Scenario) {
 					}
 				}
 			}
+			if ev.TunFail {
+				w.Tun.WriteErr = errors.New("sim: tun write: input/output error")
+			}
 			out := w.InjectBatch(ds...)
+			w.Tun.WriteErr = nil
 			w.Tun.WriteGate = nil
 			if n := int(fired.Load()); n > 3 {
 				ev.JunkSent = 3 * ev.Junk
@@ -800,6 +807,10 @@ func genScenario(r *rand.Rand, big bool, cookie bool) *Scenario {
 				k = 128 + r.Intn(20)
 			}
 			ev := Ev{Kind: "dg"}
+			if r.Intn(10) == 0 { // the TUN refuses this step's writes; the next step shows whether anything lingers
+				ev.TunFail = true
+				k += 2
+			}
 			for j := 0; j < k; j++ {
 				ev.Dgs = append(ev.Dgs, g.datagram())
 			}
@@ -990,6 +1001,19 @@ func directed() []*Scenario {
 		}
 		out = append(out, scr)
 	}
+	// tun.Write fails for one step: the packets are lost, nothing of them may appear with the next batch
+	pk2 := func(n int) []byte { return ref.Pad(v4([4]byte{10, 1, 1, 1}, n)) }
+	sct := &Scenario{Gen: "directed-tun-write-error", NPeers: 2, BindBatch: 4, Table: tbl}
+	sct.Evs = []Ev{{Kind: "hs", Peer: 0}, {Kind: "hs", Peer: 1},
+		{Kind: "dg", Dgs: []Dg{{Sess: 1, IdxOf: 1, Ctr: 1, Plain: pk2(30)}}},
+		{Kind: "dg", TunFail: true, Dgs: []Dg{{Sess: 1, IdxOf: 1, Ctr: 2, Plain: pk2(31), Note: "lost-by-tun-error"}, {Sess: 1, IdxOf: 1, Ctr: 3, Plain: pk2(32), Note: "lost-by-tun-error"},
+			{Sess: 2, IdxOf: 2, Ctr: 1, Plain: ref.Pad(v4([4]byte{10, 1, 2, 1}, 33)), Note: "lost-by-tun-error"}}},
+		{Kind: "dg", Dgs: []Dg{{Sess: 1, IdxOf: 1, Ctr: 4, Plain: pk2(34)}}},
+		{Kind: "dg", Dgs: []Dg{{Sess: 2, IdxOf: 2, Ctr: 2, Plain: ref.Pad(v4([4]byte{10, 1, 2, 1}, 35))}, {Sess: 1, IdxOf: 1, Ctr: 2, Plain: pk2(31), Note: "replay"}}},
+		{Kind: "dg", TunFail: true, Dgs: []Dg{{Sess: 1, IdxOf: 1, Ctr: 5, Plain: pk2(36), Note: "lost-by-tun-error"}, {Sess: 1, IdxOf: 1, Ctr: 6, Plain: pk2(37), Note: "lost-by-tun-error"}}},
+		{Kind: "dg", Dgs: []Dg{{Sess: 1, IdxOf: 1, Ctr: 7, Plain: pk2(38)}, {Sess: 1, IdxOf: 1, Ctr: 8, Plain: pk2(39)}}},
+	}
+	out = append(out, sct)
 	// an offered key confirmed late: the clock of a keypair starts when it is created, not when it is first used
 	scl := &Scenario{Gen: "directed-late-confirmation", NPeers: 1, BindBatch: 1, Table: tbl[:1]}
 	scl.Evs = []Ev{{Kind: "hs", Peer: 0}, {Kind: "hsu", Peer: 0}, {Kind: "age", Peer: 0, Secs: 100},
@@ -1075,7 +1099,11 @@ func gallina(sc *Scenario) string {
 				fmt.Fprintf(&b, "RAge %d %d", p, ev.Ms)
 			}
 		case "dg":
-			b.WriteString("RDg [")
+			if ev.TunFail {
+				b.WriteString("RDgFail [")
+			} else {
+				b.WriteString("RDg [")
+			}
 			for j, d := range ev.Dgs {
 				if j > 0 {
 					b.WriteString(";")
